@@ -1218,6 +1218,18 @@ def rule_contains_behavior(ctx: Ctx, rule: str = "membership") -> None:
     ctx.floor("contains_behavior guard instances", n_guard, 1)
 
 
+def _strip_wrappers(v):
+    """np.asarray(x) / np.array(x) / np.copy(x) / x.copy() / x.astype(..) -> x"""
+    while isinstance(v, tuple) and v:
+        if v[0] == "call" and str(v[1]).split(".")[-1] in ("asarray", "array", "copy", "atleast_2d", "atleast_1d") and len(v[2]) >= 1:
+            v = v[2][0]
+        elif v[0] == "mcall" and v[1] in ("copy", "astype"):
+            v = v[2]
+        else:
+            break
+    return v
+
+
 def rule_get_variable_bounds(ctx: Ctx, rule: str = "bounds-order") -> None:
     """C12: get_variable_bounds returns (minimum, maximum) = (optimize(maximize=False), optimize(maximize=True));
     PolyhedralIoContract.optimize optimises over assumptions | guarantees with the objective's coefficients."""
@@ -1280,7 +1292,7 @@ def rule_get_variable_bounds(ctx: Ctx, rule: str = "bounds-order") -> None:
         seen_shapes.add(shape)
         t2p = p.calls("termlist_to_polytope")
         construct = "PolyhedralTermList.optimize: the LP is over self's matrix and bounds"
-        okc = len(t2p) == 1 and t2p[0]["args"] and t2p[0]["args"][0] == ("param", "self") and a_ub == ("item", t2p[0]["result"], 1) and b_ub == ("item", t2p[0]["result"], 2)
+        okc = len(t2p) == 1 and t2p[0]["args"] and t2p[0]["args"][0] == ("param", "self") and _strip_wrappers(a_ub) == ("item", t2p[0]["result"], 1) and _strip_wrappers(b_ub) == ("item", t2p[0]["result"], 2)
         (ctx.ok(rule, key, construct) if okc else ctx.violation(rule, key, construct, "A_ub=%s b_ub=%s" % (show(a_ub, 3), show(b_ub, 3)), where=fi.where))
 
 
@@ -1530,8 +1542,9 @@ def rule_matrix_provenance(ctx: Ctx, key: str, rule: str = "matrix-provenance") 
     prog = ctx.prog
     fi = prog.func(key)
     short = key.split(".")[-1]
-    mats = ["a_l", "b_l", "a_r", "b_r"] if short.startswith("verify") else ["a", "b", "a_help", "b_help"]
-    ps = [p for p in lp_paths(prog, key, 0) if p.terminal == "return"]
+    known = {"verify_polytope_containment": ["a_l", "b_l", "a_r", "b_r"], "reduce_polytope": ["a", "b", "a_help", "b_help"], "is_polytope_empty": ["a", "b"]}
+    mats = known.get(short, [])
+    ps = [p for p in lp_paths(prog, key, 0) if p.terminal in ("return", "raise")]
     if not ps:
         ctx.cannot_decide(rule, key, "lp paths", "no returning path through the LP")
         return
@@ -1548,7 +1561,8 @@ def rule_matrix_provenance(ctx: Ctx, key: str, rule: str = "matrix-provenance") 
                     continue
                 seen.add((kwn, sig))
                 n += 1
-                bad = _foreign_matrix_ops(v, mats, allow_row_pick=True)
+                t2p_results = [e_["result"] for e_ in p.calls("termlist_to_polytope")]
+                bad = _foreign_matrix_ops(v, mats, allow_row_pick=True, roots=t2p_results)
                 construct = "%s: %s is built from the operand matrices without re-selecting rows" % (short, kwn)
                 if bad:
                     ctx.violation(rule, key, construct, "%s passes through %s before the LP: rows are selected / merged / re-ordered outside the LP-justified np.delete" % (kwn, bad), where=fi.where)
@@ -1574,10 +1588,20 @@ def _computed_index(idx) -> bool:
     return False
 
 
-def _foreign_matrix_ops(v, mats: List[str], allow_row_pick: bool) -> Optional[str]:
-    """Name of the first operation applied to (something derived from) a parameter matrix that is not row preserving."""
+def _foreign_matrix_ops(v, mats: List[str], allow_row_pick: bool, roots: Optional[List[Any]] = None) -> Optional[str]:
+    """Name of the first operation applied to (something derived from) an operand matrix that is not row preserving.
+    Operand matrices: the named array parameters and the items of termlist_to_polytope(...) results."""
+    roots = roots or []
+
+    def is_root(y) -> bool:
+        if isinstance(y, tuple) and len(y) == 2 and y[0] == "param" and y[1] in mats:
+            return True
+        if isinstance(y, tuple) and len(y) == 3 and y[0] == "item" and y[1] in roots:
+            return True
+        return isinstance(y, tuple) and len(y) == 3 and y[0] == "sub" and y[1] in roots and is_const(y[2])
+
     def derived(x) -> bool:
-        return mentions(x, lambda y: isinstance(y, tuple) and len(y) == 2 and y[0] == "param" and y[1] in mats)
+        return mentions(x, is_root)
 
     def walk_no_iter(root):
         st = [root]
@@ -1598,10 +1622,98 @@ def _foreign_matrix_ops(v, mats: List[str], allow_row_pick: bool) -> Optional[st
                 return "%s(...)" % x[1]
         if x[0] == "mcall" and derived(x[2]) and x[1] not in ("copy", "astype", "reshape", "tolist"):
             return ".%s(...)" % x[1]
-        if x[0] == "sub" and derived(x[1]):
+        if x[0] == "sub" and derived(x[1]) and not (x[1] in roots) and not is_root(x):
             idx = x[2]
             # a single row / entry addressed by the loop index is the tested row; anything computed (np.sort(first),
             # masks, np.unique indices) is a re-selection
             if _computed_index(idx):
                 return "indexing with %s" % show(idx, 3)
     return None
+
+
+def rule_reduce_loop_discipline(ctx: Ctx, rule: str = "reduce-loop") -> None:
+    """C07: in reduce_polytope a deleted row shrinks the row count and leaves the position where it is (the next row
+    moved into it); a kept row advances the position.  Otherwise rows are skipped untested or read past the end."""
+    prog = ctx.prog
+    key = PTL + "reduce_polytope"
+    fi = prog.func(key)
+    n = 0
+    for s_ in (0, 3, 1):
+        for p in lp_paths(prog, key, s_):
+            if not _one_iteration(p) or p.terminal != "return":
+                continue
+            deleted = _deletes_after_lp(p)
+            pos_moves = count_moves = None
+            for nm in _position_names(fi) & set(p.env):
+                d = _delta_from_start(p.env[nm])
+                if d is not None and nm in _loop_counter_names(fi):
+                    pos_moves = d
+            for nm in _count_names(fi) & set(p.env):
+                d = _delta_from_start(p.env[nm])
+                if d is not None:
+                    count_moves = d
+            if pos_moves is None or count_moves is None:
+                ctx.cannot_decide(rule, key, "loop counters", "could not follow the position / row-count variables")
+                continue
+            n += 1
+            construct = "reduce_polytope: %s" % ("a removed row shrinks the count and keeps the position" if deleted else "a kept row advances the position by one")
+            want = (Fraction(0), Fraction(-1)) if deleted else (Fraction(1), Fraction(0))
+            if (pos_moves, count_moves) == want:
+                ctx.ok(rule, key, construct + " (status %d)" % s_, nontrivial=False)
+            else:
+                ctx.violation(rule, key, construct, "status %d, row %s: position moves by %s and row count by %s" % (s_, "removed" if deleted else "kept", pos_moves, count_moves), where=fi.where)
+    ctx.floor("reduce_polytope iteration paths", n, 3)
+
+
+def _position_names(fi: FuncInfo) -> Set[str]:
+    """Names used to index the tested row ( a_temp[i, :] / b_temp[i] )."""
+    out: Set[str] = set()
+    for node in ast.walk(fi.node):
+        if isinstance(node, ast.Subscript):
+            sl = node.slice
+            elts = sl.elts if isinstance(sl, ast.Tuple) else [sl]
+            for e in elts:
+                if isinstance(e, ast.Name):
+                    out.add(e.id)
+    return out
+
+
+def _count_names(fi: FuncInfo) -> Set[str]:
+    """Names compared with the position in the loop condition ( while i < n )."""
+    out: Set[str] = set()
+    for node in ast.walk(fi.node):
+        if isinstance(node, ast.While) and isinstance(node.test, ast.Compare):
+            for e in [node.test.left] + list(node.test.comparators):
+                if isinstance(e, ast.Name):
+                    out.add(e.id)
+    return out - _position_names(fi)
+
+
+def _delta_from_start(v) -> Optional[Fraction]:
+    """net constant added to a counter over the path: value = start + d  ->  d  (start = any single non-arithmetic atom or 0)."""
+    r = to_rat(v)
+    if set(r.den) != {()}:
+        return None
+    k = r.den[()]
+    const_part = Fraction(0)
+    atoms = 0
+    for m, c in r.num.items():
+        if m == ():
+            const_part += c / k
+        elif len(m) == 1 and m[0][1] == 1 and c / k == 1:
+            atoms += 1
+        else:
+            return None
+    if atoms > 1:
+        return None
+    return const_part
+
+
+def _loop_counter_names(fi: FuncInfo) -> Set[str]:
+    out: Set[str] = set()
+    for node in ast.walk(fi.node):
+        if isinstance(node, ast.While) and isinstance(node.test, ast.Compare):
+            for e in [node.test.left] + list(node.test.comparators):
+                if isinstance(e, ast.Name):
+                    out.add(e.id)
+    return out
